@@ -187,3 +187,67 @@ def offset_map_siblings(ctx, crate, clause="offset-map-siblings"):
                 else: res["grid"] = (to_poly(ua[0], {('fld', cen[0].ret, 0): "x", o_t: "o", divs[0]: "dx", divs[1]: "dy"}), None)
     ok = res.get("sph_coo") == want and res.get("grid") == want
     ctx.report(clause, "sph_coo==grid:offset-map", ok, "both: centre + ((dx - dy)·o, (dx + dy - 1)·o)" if ok else "sph_coo: %s ; grid: %s ; expected %s" % (res.get("sph_coo"), res.get("grid"), want), at=b.span if b else None, kind="N")
+
+
+def decomposition_chain(ctx, crate, which=("hash_v1", "hash_with_dxdy"), clause="decomposition-chain"):
+    """N: the routes that compute a cell number through the rotated frame (`hash_v1`, `hash_with_dxdy`)
+    hand each step the value the previous one produced, in the right slot:
+      proj(lon, lat) -> x wrapped into [0, 8) -> shift_rotate_scale -> discretize -> base_cell_coos
+      -> depth0_bits(i, j, &mut ij, xy) -> to_coos_in_base_cell(&mut ij) -> build_hash(bits, ij.0, ij.1)
+    (helpers opaque; values written through `&mut` arguments are the callee's, identified by site).
+    Two same-typed arguments exchanged, or a step fed with the value of before the previous step, is
+    a wrong cell on part of the sphere only (i = j on the diagonal of every base cell)."""
+    srs = L + "shift_rotate_scale"; DISC = "nested::discretize"; BCC = L + "base_cell_coos"; D0B = L + "depth0_bits"
+    TCO = L + "to_coos_in_base_cell"; BH = L + "build_hash"; XGT = L + "x_in_d0c_gt_y_in_d0c"
+    n = 0
+    for short in which:
+        fn = L + short
+        b = ctx.anchor(crate, fn, clause)
+        if b is None: continue
+        e = Engine(crate, opaque={"proj", "ensures_x_is_positive", srs, DISC, D0B, BCC, TCO, BH, XGT})
+        r = e.run(fn); ctx.functions |= e.visited_fns
+        evs = [ev for ev in e.events.values() if len(ev.site) == 2]
+        def one(name):
+            xs = [ev for ev in evs if ev.callee == name]
+            return xs[0] if len(xs) == 1 else None
+        pj, en, sr, dc, bc, d0, tc, bh = (one(x) for x in ("proj", "ensures_x_is_positive", srs, DISC, BCC, D0B, TCO, BH))
+        why = None
+        def val(ev, i):
+            """value of argument i: the pointee at call time for references"""
+            if ev.argvals and ev.argvals[i] is not None: return ev.argvals[i]
+            return ev.args[i]
+        def havoc_of(t, ev):
+            return t[0] == 'sym' and t[1][0] == 'havoc' and t[1][1] == ev.site
+        if any(x is None for x in (pj, en, sr, dc, bc, d0, tc, bh)):
+            why = "expected exactly one call of each step, found %s" % {k: len([ev for ev in evs if ev.callee == k]) for k in ("proj", "ensures_x_is_positive", srs, DISC, BCC, D0B, TCO, BH)}
+        else:
+            R = bc.ret
+            xy0 = val(sr, 1)
+            H = dc.args[0]
+            J = None
+            if pj.args != [param("lon"), param("lat")]: why = "proj is not given (lon, lat)"
+            elif not (xy0[0] == 'agg' and xy0[3][0] == en.ret and en.args[0] == ('fld', pj.ret, 0) and xy0[3][1] == ('fld', pj.ret, 1)):
+                why = "shift_rotate_scale receives %s, not (ensures_x_is_positive(proj.0), proj.1)" % show(xy0)[:80]
+            elif not havoc_of(H, sr): why = "discretize receives %s, not the position left by shift_rotate_scale" % show(H)[:60]
+            elif val(bc, 1) != dc.ret: why = "base_cell_coos receives %s, not the result of discretize" % show(val(bc, 1))[:60]
+            elif d0.args[1:3] != [('fld', R, 0), ('fld', R, 1)]: why = "depth0_bits receives (%s, %s) as base-cell coordinates, not (i, j) of base_cell_coos in that order" % (show(d0.args[1])[:40], show(d0.args[2])[:40])
+            elif val(d0, 3) != dc.ret or d0.args[4] != H: why = "depth0_bits receives (%s, %s) as cell coordinates / position" % (show(val(d0, 3))[:40], show(d0.args[4])[:40])
+            elif not havoc_of(val(tc, 1), d0): why = "to_coos_in_base_cell works on %s, not on the coordinates left by depth0_bits" % show(val(tc, 1))[:60]
+            else:
+                a2, a3 = bh.args[2], bh.args[3]
+                def coord(a, k):
+                    return a[0] == 'cast' and a[3][0] == 'fld' and a[3][2] == k and havoc_of(a[3][1], tc)
+                if bh.args[1] != d0.ret: why = "build_hash receives %s as base-cell bits, not the result of depth0_bits" % show(bh.args[1])[:60]
+                elif not (coord(a2, 0) and coord(a3, 1)): why = "build_hash receives (%s, %s), not (ij.0, ij.1) left by to_coos_in_base_cell" % (show(a2)[:40], show(a3)[:40])
+                else:
+                    ret = r.ret if r.returns else None
+                    if not (ret == bh.ret or (ret is not None and ret[0] == 'agg' and ret[3] and ret[3][0] == bh.ret)): why = "the cell number returned is %s, not the result of build_hash" % (show(ret)[:60] if ret else None)
+            if why is None:
+                for xg in [ev for ev in evs if ev.callee == XGT]:
+                    if xg.args[1:4] != [('fld', R, 0), ('fld', R, 1), H]:
+                        why = "x_in_d0c_gt_y_in_d0c receives (%s, %s, %s), not (i, j, position)" % tuple(show(a)[:30] for a in xg.args[1:4]); break
+        n += 1
+        ctx.report(clause, fn + ":each-step-fed-by-the-previous-one", why is None,
+                   "proj -> wrap -> rotate/scale -> discretize -> base_cell_coos -> depth0_bits(i, j, ij, xy) -> to_coos_in_base_cell -> build_hash(bits, ij.0, ij.1)" if why is None else why,
+                   at=b.span, kind="N")
+    return n
